@@ -141,6 +141,21 @@ pub fn all_items() -> Vec<Item> {
     v
 }
 
+/// Grammars that name a special token of the multi-byte vocabularies (`<a>`, bytes FF 3C 61 3E): used by the
+/// checks that have no byte-level reference (C01, C10, C11, C12); vocabularies without that token refuse them
+pub fn special_items() -> Vec<Item> {
+    let mut v = vec![
+        lark("special-after-regex", "start: /[ab]+/ <a> \"c\"", &["ab", "abc", "c"]),
+        lark("special-alt-loop", "start: (\"a\" | <a> | \"bc\")+ \"b\"", &["abcab", "ab"]),
+        lark("special-optional", "start: W <a>? W\nW: /[a-c]+/", &["abc", "cab"]),
+        lark("special-between-json", "start: j <a> j\nj: %json {\"type\":\"array\",\"items\":{\"type\":\"null\"},\"maxItems\":1}", &["[null]", "[]"]),
+    ];
+    for i in v.iter_mut() {
+        i.core = false;
+    }
+    v
+}
+
 /// Grammars outside the core fragment (stop=/max_tokens=/temperature): used by C18/C20 only.
 pub fn noncore_lark_items() -> Vec<Item> {
     let mut v = vec![
